@@ -14,7 +14,7 @@
 (*              feature, geometry class and tags, attribute check          *)
 (*   TgtDone t  fake target t, immediately before WriteFeatures returns    *)
 (*   Return     after ProcessFeatures returned (+ leaked goroutines)       *)
-(*   Hang / Panic / Races  facts observed by the harness: never accepted   *)
+(*   Hang / Panic / Crash  facts observed by the harness: never accepted   *)
 (* All channel hand-overs, closes and wait-group steps are unlogged spec   *)
 (* steps that TLC infers.  Channel capacity is unbounded here, so every    *)
 (* behaviour of the unbuffered implementation (and of a buffered           *)
